@@ -128,13 +128,19 @@ pub(crate) struct GcContext<'a> {
 
 struct GcContextInner<'a> {
     objs: Vec<Rc<GcBox<dyn GcTraceDyn + 'a>>>,
+    #[cfg(feature = "verif-hooks")]
+    verif_overcounts: u64,
 }
 
 impl<'a> GcContext<'a> {
     #[inline]
     pub(crate) fn new() -> Self {
         Self {
-            inner: RefCell::new(GcContextInner { objs: Vec::new() }),
+            inner: RefCell::new(GcContextInner {
+                objs: Vec::new(),
+                #[cfg(feature = "verif-hooks")]
+                verif_overcounts: 0,
+            }),
         }
     }
 
@@ -166,6 +172,14 @@ impl<'a> GcContext<'a> {
     #[inline]
     pub(crate) fn num_objects(&self) -> usize {
         self.inner.borrow().objs.len()
+    }
+
+    /// Verification hook: number of times a collection found an object that
+    /// was reached through more in-heap handles than handles exist for it
+    /// (a `GcTrace` implementation visited some handle more than once).
+    #[cfg(feature = "verif-hooks")]
+    pub(crate) fn verif_overcounts(&self) -> u64 {
+        self.inner.borrow().verif_overcounts
     }
 
     pub(crate) fn gc(&self) {
@@ -205,6 +219,16 @@ impl<'a> GcContext<'a> {
                 // There is at least one `Gc`, but it is already marked
                 i += 1;
             }
+        }
+
+        #[cfg(feature = "verif-hooks")]
+        {
+            let overcounts = inner
+                .objs
+                .iter()
+                .filter(|obj| obj.visits.get() > Rc::weak_count(obj))
+                .count();
+            inner.verif_overcounts += overcounts as u64;
         }
 
         // Mark
